@@ -232,7 +232,9 @@ func checkProperty(e *engine.Engine, verif, id, tier string, seed int, loadS flo
 	}
 	knownOpen := map[string]KnownFinding{}
 	for _, k := range known.Findings {
-		if k.Property == id && k.Status == "open" {
+		// a finding is identified by its obligation and witness; it is reported by every
+		// property whose check meets that obligation
+		if k.Status == "open" {
 			knownOpen[k.Obligation] = k
 		}
 	}
